@@ -1,7 +1,9 @@
 """C11 — inversion solvers: SART follows its update rule, NNLS/LSQ return true minimisers.
 
 T  lean/Cherab/Props/C11.lean over lean/Cherab/Model/Inversion.lean (helper algebra in Lemmas/Inversion.lean)
-K  * invert_sart / invert_constrained_sart against the Lean model run at Float by the native driver on generated
+K  * representation stream: every argument of the five entry points in many Python representations; acceptance / kind of rejection
+     against the model's sartAccept / lsqAccept / svdAccept, accepted cases through the same value comparisons as below;
+   * invert_sart / invert_constrained_sart against the Lean model run at Float by the native driver on generated
      systems (under/over-determined, rank-deficient, rows/columns of zeros, all kinds of initial_guess), compared
      on (status, number of iterations, solution, convergence list);  an *exact* stream of dyadic systems on which
      double arithmetic does not round is compared bit-for-bit, including the stop decision placed exactly on
@@ -14,8 +16,9 @@ K  * invert_sart / invert_constrained_sart against the Lean model run at Float b
 S  direct oracles on the implementation's outputs, no model: non-negativity; the documented update rule replayed
    in vectorised numpy for `len(convergence)` sweeps; the documented stop rule evaluated on the returned
    convergence list; fixed point at an exact non-negative solution; KKT / normal-equation residuals of the
-   returned x computed from (W, L, alpha, b); residual-norm consistency; objective not larger than at perturbed
-   feasible points.
+   returned x computed in float64 from the mathematical values (W, L, alpha, b); residual-norm consistency; objective not
+   larger than at perturbed feasible points; standing oracles for every argument object: not modified by the call (SART's array
+   initial_guess excepted: it is the returned solution), and a second identical call returns the identical result.
 """
 import json
 import math
@@ -213,8 +216,8 @@ def vec_close(a, b, rel=1e-9, floor=0.0):
     return bool(np.all(np.abs(a - b) <= rel * np.maximum(np.abs(a), np.abs(b)) + rel * scale + floor))
 
 
-def conv_close(a, b, rel=1e-9):
-    return len(a) == len(b) and all(abs(x - y) <= rel * (1.0 + abs(x) + abs(y)) for x, y in zip(a, b))
+def conv_close(a, b, rel=1e-9, floor=0.0):
+    return len(a) == len(b) and all(abs(x - y) <= rel * (1.0 + abs(x) + abs(y)) + floor for x, y in zip(a, b))
 
 
 # ------------------------------------------------------------------------------------------------- SART stream
@@ -245,15 +248,21 @@ def sart_cases(ctx, n_cases, big):
         guess_copy = None if not isinstance(guess, np.ndarray) else guess.copy()
         x0 = (np.zeros(n) + math.exp(-1) if guess is None else
               (guess_copy if guess_copy is not None else np.zeros(n) + float(guess)))
+        La_ = np.array(L, dtype=float).reshape(n, n) if constrained else None
+        snaps = [snap(v) for v in (Wa, ba, La_)]
         with np.errstate(all='ignore'):
             if constrained:
-                st, res = call(invert_constrained_sart, Wa, np.array(L, dtype=float).reshape(n, n), ba, initial_guess=guess,
+                st, res = call(invert_constrained_sart, Wa, La_, ba, initial_guess=guess,
                                max_iterations=maxit, relaxation=relax, beta_laplace=beta, conv_tol=tol)
                 line = 'csart %d %d %d %s %s %s %s %s %s %s' % (n, m, maxit, f2b(relax), f2b(tol), f2b(beta), gtok,
                                                                fs(flat(W)), fs(b), fs(flat(L)))
             else:
                 st, res = call(invert_sart, Wa, ba, initial_guess=guess, max_iterations=maxit, relaxation=relax, conv_tol=tol)
                 line = 'sart %d %d %d %s %s %s %s %s' % (n, m, maxit, f2b(relax), f2b(tol), gtok, fs(flat(W)), fs(b))
+        for nm_, v_, s0 in zip(('geometry_matrix', 'measurement_vector', 'laplacian_matrix'), (Wa, ba, La_), snaps):
+            if snap(v_) != s0:
+                ctx.fail('C11:%s:argument-%s-modified' % ('invert_constrained_sart' if constrained else 'invert_sart', nm_),
+                         'the caller\'s %s was modified by the call' % nm_, dict(W=W, b=b, L=L))
         desc = dict(func='invert_constrained_sart' if constrained else 'invert_sart', W=W, b=b, L=L, beta=beta if constrained else None,
                     initial_guess_kind=gk, x0=[float(v) for v in x0], max_iterations=maxit, relaxation=relax, conv_tol=tol,
                     matrix_class=wk, b_class=bk, laplacian_class=lk)
@@ -292,44 +301,60 @@ def sart_oracles(ctx, c):
             ctx.fail('C11:%s:stop-rule' % fn, why, d)
     xr, convr, mag = sart_reference(c['W'], c['b'], c['x0'], len(conv), c['relax'], c['L'], c['beta'])
     c['mag'] = mag
+    # sensitivity of a convergence value to the cancellation residue (<= ~1e-16 mag) an iterate may carry:
+    # d conv = 2 |W x| |W dx| / |b|^2
+    Wn = np.asarray(c['W'], float); bn = np.asarray(c['b'], float)
+    bb = float(bn @ bn)
+    ymax = math.sqrt(max([0.0] + [abs(1.0 - v) for v in convr])) * math.sqrt(bb)
+    c['cfloor'] = 20.0 * ymax * float(np.linalg.norm(Wn)) * mag * math.sqrt(Wn.shape[1]) / bb
     if not vec_close(x, xr, 1e-8, 1e-9 * mag):
         ctx.fail('C11:%s:update-rule' % fn, 'returned solution is not iterate %d of the documented rule: %r vs %r' % (len(conv), x.tolist(), xr.tolist()), d)
-    elif not conv_close(conv, convr, 1e-8):
+    elif not conv_close(conv, convr, 1e-8, 1e-9 * c['cfloor']):
         ctx.fail('C11:%s:convergence-list' % fn, 'convergence list differs from (|b|^2-|Wx|^2)/|b|^2 of the iterates: %r vs %r' % (conv, convr), d)
+    elif conv:
+        y = Wn @ x
+        last = (bb - float(y @ y)) / bb
+        if abs(conv[-1] - last) > 1e-9 * (1.0 + abs(last) + float(y @ y) / bb):
+            ctx.fail('C11:%s:convergence-list' % fn, 'last convergence value %r is not (|b|^2-|Wx|^2)/|b|^2 = %r of the returned solution' % (conv[-1], last), d)
+
+
+def sart_compare(ctx, c, o):
+    """S oracles on one SART result, then K: compare it with the model's output line `o`"""
+    ctx.traces += 1
+    sart_oracles(ctx, c)
+    t = o.split()
+    st, res, d = c['st'], c['res'], c['desc']
+    name = 'C11 stream ' + d['func']
+    if t[0] != 'ok' or st != 'ok':
+        if t[0] != st:
+            ctx.disagreements += 1
+            ctx.broke('correspondence', name, dict(model=o[:200], implementation=st, input=d))
+        return
+    N = int(t[1])
+    xm = [b2f(v) for v in t[2:2 + c['n']]]
+    cm = [b2f(v) for v in t[2 + c['n']:]]
+    x, conv = res
+    conv = [float(v) for v in conv]
+    if N != len(conv):
+        k = min(N, len(conv)) - 1
+        near = k >= 1 and abs(abs(conv[k] - conv[k - 1]) - c['tol']) <= 1e-9 * (1 + abs(conv[k]))
+        if near:
+            ctx.count('stop-decision-guard-band-skipped')
+        else:
+            ctx.disagreements += 1
+            ctx.broke('correspondence', name, dict(what='iteration count', model=N, implementation=len(conv), input=d))
+    elif not (vec_close(x, xm, 1e-9, 1e-10 * c.get('mag', 0.0)) and conv_close(conv, cm, 1e-9, 1e-10 * c.get('cfloor', 0.0))):
+        ctx.disagreements += 1
+        ctx.broke('correspondence', name, dict(what='values', model_x=xm, impl_x=[float(v) for v in x], model_conv=cm, impl_conv=conv, input=d))
+    ctx.count('iterations:%s' % ('0' if N == 0 else '1' if N == 1 else '2-9' if N < 10 else '10-99' if N < 100 else '100+'))
+    ctx.count('stopped:' + ('max_iterations' if N == c['maxit'] else 'convergence'))
 
 
 def sart_stream(ctx):
     cases = sart_cases(ctx, ctx.n(800, 30000), 8 if ctx.tier == 'quick' else 12)
     outs = ctx.driver([c['line'] for c in cases])
     for c, o in zip(cases, outs):
-        ctx.traces += 1
-        sart_oracles(ctx, c)
-        t = o.split()
-        st, res, d = c['st'], c['res'], c['desc']
-        name = 'C11 stream ' + d['func']
-        if t[0] != 'ok' or st != 'ok':
-            if t[0] != st:
-                ctx.disagreements += 1
-                ctx.broke('correspondence', name, dict(model=o[:200], implementation=st, input=d))
-        else:
-            N = int(t[1])
-            xm = [b2f(v) for v in t[2:2 + c['n']]]
-            cm = [b2f(v) for v in t[2 + c['n']:]]
-            x, conv = res
-            conv = [float(v) for v in conv]
-            if N != len(conv):
-                k = min(N, len(conv)) - 1
-                near = k >= 1 and abs(abs(conv[k] - conv[k - 1]) - c['tol']) <= 1e-9 * (1 + abs(conv[k]))
-                if near:
-                    ctx.count('stop-decision-guard-band-skipped')
-                else:
-                    ctx.disagreements += 1
-                    ctx.broke('correspondence', name, dict(what='iteration count', model=N, implementation=len(conv), input=d))
-            elif not (vec_close(x, xm, 1e-9, 1e-10 * c.get('mag', 0.0)) and conv_close(conv, cm)):
-                ctx.disagreements += 1
-                ctx.broke('correspondence', name, dict(what='values', model_x=xm, impl_x=[float(v) for v in x], model_conv=cm, impl_conv=conv, input=d))
-            ctx.count('iterations:%s' % ('0' if N == 0 else '1' if N == 1 else '2-9' if N < 10 else '10-99' if N < 100 else '100+'))
-            ctx.count('stopped:' + ('max_iterations' if N == c['maxit'] else 'convergence'))
+        sart_compare(ctx, c, o)
 
 
 # ------------------------------------------------------------------------------------------------- exact stream
@@ -547,12 +572,12 @@ def lsq_scale(C, d, x):
 SIG_NNLS_EXT = 'C11:invert_regularised_nnls:external-solver(scipy.optimize.nnls)-returns-non-KKT-point'
 
 
-def kkt_why(C, d, x, slack_extra=0.0):
+def kkt_why(C, d, x, slack_extra=0.0, rel=1e-8):
     """None when x satisfies the KKT conditions of min |Cx-d|^2, x >= 0 within tolerance, else the reason"""
     x = np.asarray(x, float)
     g = C.T @ (C @ x - d)
     sc = lsq_scale(C, d, x)
-    slack = 1e-8 * sc + slack_extra
+    slack = rel * sc + slack_extra
     if not np.all(x >= 0):
         return 'x has a negative entry'
     if np.min(g) < -slack:
@@ -562,7 +587,7 @@ def kkt_why(C, d, x, slack_extra=0.0):
     return None
 
 
-def nnls_oracle(ctx, rng, Wa, ba, alpha, La, st, res, spycall, desc, zclass=None):
+def nnls_oracle(ctx, rng, Wa, ba, alpha, La, st, res, spycall, desc, zclass=None, rel=1e-8):
     """S for invert_regularised_nnls on the caller's problem (W, L, alpha, b).  Returns 'compare' when the case should also be
     compared with the model (K), else None."""
     m, n = Wa.shape
@@ -591,9 +616,13 @@ def nnls_oracle(ctx, rng, Wa, ba, alpha, La, st, res, spycall, desc, zclass=None
     x, norm = res
     x = np.asarray(x, float)
     # scipy's stopping test is absolute (~1e-14) on the *normalised* system: allow it back in caller's units
-    why = kkt_why(C, d, x, 1e-10 * vmax * vmax)
+    x = np.asarray(x, float)
+    if x.shape != (n,):
+        ctx.fail('C11:invert_regularised_nnls:solution-shape', 'solution of shape %r for n = %d' % (x.shape, n), desc)
+        return None
+    why = kkt_why(C, d, x, 1e-10 * vmax * vmax, rel)
     obj = float(np.sum((Wa @ x - ba) ** 2) + alpha ** 2 * np.sum((Leff @ x) ** 2))
-    norm_bad = abs(float(norm) - math.sqrt(obj)) > 1e-9 * (math.sqrt(obj) + float(np.linalg.norm(d)))
+    norm_bad = abs(float(norm) - math.sqrt(obj)) > 0.1 * rel * (math.sqrt(obj) + float(np.linalg.norm(d)))
     if (why or norm_bad) and spycall is not None:
         # is it the wrapper or the external solver?  evaluate the solver's own answer on the system it was handed
         (A_, b_), _, (xs_, rn_) = spycall
@@ -616,124 +645,108 @@ def nnls_oracle(ctx, rng, Wa, ba, alpha, La, st, res, spycall, desc, zclass=None
         ctx.fail('C11:invert_regularised_nnls:residual-norm-inconsistent',
                  'reported norm %r but sqrt(|Wx-b|^2 + alpha^2|Lx|^2) = %r' % (float(norm), math.sqrt(obj)), dict(desc, returned_x=x.tolist()))
     if not why:
-        _perturb_check(ctx, rng, 'invert_regularised_nnls', Wa, ba, alpha, Leff, x, obj, True, desc)
+        _perturb_check(ctx, rng, 'invert_regularised_nnls', Wa, ba, alpha, Leff, x, obj, True, desc, rel)
     return verdict
 
 
-def lsq_stream(ctx):
+def spied(which, fn, args, kw):
+    """call one of the three wrappers with its external solver spied; returns (status, result, spy calls)"""
     import scipy.optimize
     import scipy.linalg
-    from cherab.tools.inversions import invert_regularised_nnls, invert_regularised_lstsq, invert_svd
-    rng = ctx.rng
-    lines, checks = [], []
-    big = 8 if ctx.tier == 'quick' else 12
-    real_nnls, real_lstsq, real_pinv = scipy.optimize.nnls, np.linalg.lstsq, scipy.linalg.pinv
+    tgt = {'nnls': (scipy.optimize, 'nnls'), 'lstsq': (np.linalg, 'lstsq'), 'svd': (scipy.linalg, 'pinv')}[which]
+    real = getattr(*tgt)
+    spy = Spy(real)
+    setattr(tgt[0], tgt[1], spy)
     try:
-        for it in range(ctx.n(700, 30000)):
-            m, n = rng.randint(1, big), rng.randint(1, big)
-            W, wk = gen_matrix(rng, m, n)
-            b, bk = gen_b(rng, W, m, n)
-            zclass = None
-            if it % 11 == 5:
-                zclass = rng.choice(['all-zero', 'all-negative', 'non-positive'])
-                b = {'all-zero': [0.0] * m, 'all-negative': [-rng.uniform(0.1, 2) for _ in range(m)],
-                     'non-positive': [rng.choice([0.0, -rng.uniform(0.1, 2)]) for _ in range(m)]}[zclass]
-                bk = zclass
-            alpha = rng.choice([0.01, 0.01, 0.0, 1.0, 0.1, rng.uniform(0, 2), 10.0 ** rng.randint(-4, 1)])
-            hasL = rng.random() < 0.6
-            if hasL:
-                if rng.random() < 0.5:
-                    L, lk = gen_laplacian(rng, n)
-                else:
-                    L, lk = [[rng.uniform(-1, 1) for _ in range(n)] for _ in range(n)], 'random'
-            else:
-                L, lk = None, 'identity(default)'
-            Wa = np.array(W).reshape(m, n); ba = np.array(b); La = None if L is None else np.array(L).reshape(n, n)
-            Leff = np.identity(n) if La is None else La
-            C = np.vstack([Wa, alpha * Leff]); d = np.concatenate([ba, np.zeros(n)])
-            base = dict(W=W, b=b, alpha=alpha, tikhonov_matrix=L, matrix_class=wk, b_class=bk, tikhonov_class=lk)
-            which = rng.choice(['nnls', 'nnls', 'lstsq', 'lstsq', 'svd']) if zclass is None else 'nnls'
-            ctx.count('invert_' + which); ctx.count('lsq-matrix:' + wk); ctx.count('lsq-b:' + bk)
-            ctx.case(key=(which, wk, bk, lk, m, n, f2b(alpha)),
-                     sample=dict(func=which, shape=[m, n], alpha=alpha, tikhonov=lk, W=W, b=b) if it % 89 == 7 else None)
-
-            if which == 'nnls':
-                desc = dict(base, func='invert_regularised_nnls')
-                spy = Spy(real_nnls); scipy.optimize.nnls = spy
-                kw = dict(maxiter=50 * n) if rng.random() < 0.3 else {}
-                with np.errstate(all='ignore'):
-                    st, res = call(invert_regularised_nnls, Wa, ba, alpha, La, **kw)
-                scipy.optimize.nnls = real_nnls
-                spycall = spy.calls[0] if len(spy.calls) == 1 else None
-                verdict = nnls_oracle(ctx, rng, Wa, ba, alpha, La, st, res, spycall, desc, zclass)
-                if verdict == 'compare':
-                    if spycall is not None:
-                        (A_, b_), kw_, (xs_, rn_) = spycall
-                        lines.append('nnls %d %d %s %d %s %s %s %s %s' % (m, n, f2b(alpha), 1 if hasL else 0, fs(flat(W)), fs(b),
-                                                                          (fs(flat(L)) if hasL else ''), fs(xs_.tolist()), f2b(rn_)))
-                        checks.append(('nnls', desc, dict(A=A_, b=b_, x=np.asarray(res[0]), norm=float(res[1]), xs=xs_, kw=kw_, kw_in=kw, n=n, rows=m + n)))
-                    else:
-                        ctx.broke('correspondence', 'C11 stream nnls-spy', dict(what='scipy.optimize.nnls called %d times' % len(spy.calls), input=desc))
-
-            elif which == 'lstsq':
-                desc = dict(base, func='invert_regularised_lstsq')
-                spy = Spy(real_lstsq); np.linalg.lstsq = spy
-                st, res = call(invert_regularised_lstsq, Wa, ba, alpha, La)
-                np.linalg.lstsq = real_lstsq
-                if st != 'ok':
-                    ctx.fail('C11:invert_regularised_lstsq:raised-%s' % st, 'raised %s: %s' % (st, res), desc)
-                    continue
-                x, resid = res
-                if len(spy.calls) == 1:
-                    (A_, b_), kw_, r_ = spy.calls[0]
-                    lines.append('lstsq %d %d %s %d %s %s %s' % (m, n, f2b(alpha), 1 if hasL else 0, fs(flat(W)), fs(b), fs(flat(L)) if hasL else ''))
-                    checks.append(('lstsq', desc, dict(A=A_, b=b_, x=x, resid=resid, r=r_, kw=kw_, n=n, rows=m + n)))
-                else:
-                    ctx.broke('correspondence', 'C11 stream lstsq-spy', dict(what='numpy.linalg.lstsq called %d times' % len(spy.calls), input=desc))
-                x = np.asarray(x, float)
-                g = C.T @ (C @ x - d)
-                sc = lsq_scale(C, d, x)
-                if np.max(np.abs(g)) > 1e-8 * sc:
-                    ctx.fail('C11:invert_regularised_lstsq:normal-equations-violated',
-                             'max |C^T(Cx-d)| = %.3g at scale %.3g' % (float(np.max(np.abs(g))), sc), dict(desc, returned_x=x.tolist()))
-                obj = float(np.sum((Wa @ x - ba) ** 2) + alpha ** 2 * np.sum((Leff @ x) ** 2))
-                resid = np.asarray(resid, float)
-                if resid.size == 1:
-                    if abs(float(resid[0]) - obj) > 1e-9 * (obj + float(d @ d)):
-                        ctx.fail('C11:invert_regularised_lstsq:residual-inconsistent', 'reported residual %r but |Wx-b|^2+alpha^2|Lx|^2 = %r' % (float(resid[0]), obj),
-                                 dict(desc, returned_x=x.tolist()))
-                    ctx.count('lstsq-residual-reported')
-                elif resid.size == 0:
-                    if np.linalg.matrix_rank(C) >= n and C.shape[0] > n:
-                        ctx.fail('C11:invert_regularised_lstsq:residual-missing', 'no residual reported for a full-rank stacked system', desc)
-                    ctx.count('lstsq-residual-empty(rank-deficient stacked system)')
-                else:
-                    ctx.fail('C11:invert_regularised_lstsq:residual-shape', 'residuals of shape %r' % (resid.shape,), desc)
-                _perturb_check(ctx, rng, 'invert_regularised_lstsq', Wa, ba, alpha, Leff, x, obj, False, desc)
-
-            else:
-                desc = dict(func='invert_svd', W=W, b=b, matrix_class=wk, b_class=bk)
-                spy = Spy(real_pinv); scipy.linalg.pinv = spy
-                st, res = call(invert_svd, Wa, ba)
-                scipy.linalg.pinv = real_pinv
-                if st != 'ok':
-                    ctx.fail('C11:invert_svd:raised-%s' % st, 'raised %s: %s' % (st, res), desc)
-                    continue
-                x = np.asarray(res, float)
-                if len(spy.calls) == 1:
-                    (A_,), kw_, P = spy.calls[0]
-                    lines.append('svd %d %d %s %s %s' % (m, n, fs(flat(W)), fs(b), fs(np.asarray(P).ravel().tolist())))
-                    checks.append(('svd', desc, dict(A=A_, x=x, n=n, W=Wa)))
-                else:
-                    ctx.broke('correspondence', 'C11 stream svd-spy', dict(what='scipy.linalg.pinv called %d times' % len(spy.calls), input=desc))
-                g = Wa.T @ (Wa @ x - ba)
-                sc = lsq_scale(Wa, ba, x)
-                if x.shape != (n,) or np.max(np.abs(g)) > 1e-8 * sc:
-                    ctx.fail('C11:invert_svd:normal-equations-violated', 'shape %r, max |W^T(Wx-b)| = %.3g at scale %.3g' % (x.shape, float(np.max(np.abs(g))), sc),
-                             dict(desc, returned_x=x.tolist()))
+        with np.errstate(all='ignore'):
+            st, res = call(fn, *args, **kw)
     finally:
-        scipy.optimize.nnls, np.linalg.lstsq, scipy.linalg.pinv = real_nnls, real_lstsq, real_pinv
+        setattr(tgt[0], tgt[1], real)
+    return st, res, spy.calls
 
+
+def lsq_judge(ctx, rng, which, M, st, res, calls, desc, lines, checks, kw=None, zclass=None, rel=1e-8, compare=True):
+    """S oracles for one result of nnls / lstsq / svd, computed in float64 from the mathematical values M = (W, b, alpha, L);
+    queues the K comparison of the spied call with the model when `compare`."""
+    W, b, alpha, L = M['W'], M['b'], M['alpha'], M['L']
+    m, n = len(W), len(W[0])
+    hasL = L is not None
+    Wa = np.array(W, float).reshape(m, n); ba = np.array(b, float); La = None if L is None else np.array(L, float).reshape(n, n)
+    Leff = np.identity(n) if La is None else La
+    C = np.vstack([Wa, alpha * Leff]); d = np.concatenate([ba, np.zeros(n)])
+    kw = kw or {}
+    spycall = calls[0] if len(calls) == 1 else None
+    if which == 'nnls':
+        verdict = nnls_oracle(ctx, rng, Wa, ba, alpha, La, st, res, spycall, desc, zclass, rel)
+        if verdict == 'compare' and compare:
+            if spycall is not None:
+                (A_, b_), kw_, (xs_, rn_) = spycall
+                lines.append('nnls %d %d %s %d %s %s %s %s %s' % (m, n, f2b(alpha), 1 if hasL else 0, fs(flat(W)), fs(b),
+                                                                  (fs(flat(L)) if hasL else ''), fs(xs_.tolist()), f2b(rn_)))
+                checks.append(('nnls', desc, dict(A=A_, b=b_, x=np.asarray(res[0]), norm=float(res[1]), xs=xs_, kw=kw_, kw_in=kw, n=n, rows=m + n)))
+            else:
+                ctx.broke('correspondence', 'C11 stream nnls-spy', dict(what='scipy.optimize.nnls called %d times' % len(calls), input=desc))
+    elif which == 'lstsq':
+        if st != 'ok':
+            ctx.fail('C11:invert_regularised_lstsq:raised-%s' % st, 'raised %s: %s' % (st, res), desc)
+            return
+        x, resid = res
+        if compare:
+            if spycall is not None:
+                (A_, b_), kw_, r_ = spycall
+                lines.append('lstsq %d %d %s %d %s %s %s' % (m, n, f2b(alpha), 1 if hasL else 0, fs(flat(W)), fs(b), fs(flat(L)) if hasL else ''))
+                checks.append(('lstsq', desc, dict(A=A_, b=b_, x=x, resid=resid, r=r_, kw=kw_, n=n, rows=m + n)))
+            else:
+                ctx.broke('correspondence', 'C11 stream lstsq-spy', dict(what='numpy.linalg.lstsq called %d times' % len(calls), input=desc))
+        x = np.asarray(x, float)
+        if x.shape != (n,):
+            ctx.fail('C11:invert_regularised_lstsq:solution-shape', 'solution of shape %r for n = %d' % (x.shape, n), desc)
+            return
+        g = C.T @ (C @ x - d)
+        sc = lsq_scale(C, d, x)
+        if np.max(np.abs(g)) > rel * sc:
+            ctx.fail('C11:invert_regularised_lstsq:normal-equations-violated',
+                     'max |C^T(Cx-d)| = %.3g at scale %.3g' % (float(np.max(np.abs(g))), sc), dict(desc, returned_x=x.tolist()))
+        obj = float(np.sum((Wa @ x - ba) ** 2) + alpha ** 2 * np.sum((Leff @ x) ** 2))
+        resid = np.asarray(resid, float)
+        if resid.size == 1:
+            if abs(float(resid[0]) - obj) > 0.1 * rel * (obj + float(d @ d)):
+                ctx.fail('C11:invert_regularised_lstsq:residual-inconsistent', 'reported residual %r but |Wx-b|^2+alpha^2|Lx|^2 = %r' % (float(resid[0]), obj),
+                         dict(desc, returned_x=x.tolist()))
+            ctx.count('lstsq-residual-reported')
+        elif resid.size == 0:
+            if np.linalg.matrix_rank(C) >= n and C.shape[0] > n:
+                ctx.fail('C11:invert_regularised_lstsq:residual-missing', 'no residual reported for a full-rank stacked system', desc)
+            ctx.count('lstsq-residual-empty(rank-deficient stacked system)')
+        else:
+            ctx.fail('C11:invert_regularised_lstsq:residual-shape', 'residuals of shape %r' % (resid.shape,), desc)
+        _perturb_check(ctx, rng, 'invert_regularised_lstsq', Wa, ba, alpha, Leff, x, obj, False, desc, rel)
+    else:
+        if st != 'ok':
+            ctx.fail('C11:invert_svd:raised-%s' % st, 'raised %s: %s' % (st, res), desc)
+            return
+        x = np.asarray(res, float)
+        if compare:
+            if spycall is not None:
+                (A_,), kw_, P = spycall
+                lines.append('svd %d %d %s %s %s' % (m, n, fs(flat(W)), fs(b), fs(np.asarray(P, float).ravel().tolist())))
+                checks.append(('svd', desc, dict(A=A_, x=x, n=n, W=Wa, rel=max(1e-9, rel * 0.1))))
+            else:
+                ctx.broke('correspondence', 'C11 stream svd-spy', dict(what='scipy.linalg.pinv called %d times' % len(calls), input=desc))
+        g = Wa.T @ (Wa @ x - ba) if x.shape == (n,) else np.zeros(1)
+        sc = lsq_scale(Wa, ba, x)
+        if x.shape != (n,) or np.max(np.abs(g)) > rel * sc:
+            ctx.fail('C11:invert_svd:normal-equations-violated', 'shape %r, max |W^T(Wx-b)| = %.3g at scale %.3g' % (x.shape, float(np.max(np.abs(g))), sc),
+                     dict(desc, returned_x=x.tolist()))
+
+
+def _bits(vs):
+    """bit patterns, with -0.0 identified with 0.0 (integer-typed alpha*L has no signed zero)"""
+    return [f2b(v + 0.0) if v != 0 else f2b(0.0) for v in (float(u) for u in vs)]
+
+
+def lsq_compare(ctx, lines, checks):
+    """K: the spied solver calls against the model's stacked / normalised systems"""
     outs = ctx.driver(lines)
     for (which, desc, k), o in zip(checks, outs):
         ctx.traces += 1
@@ -743,9 +756,9 @@ def lsq_stream(ctx):
         bad = None
         if which == 'nnls':
             vm, Cm, dm, xm, nm = t[0], t[1:1 + rows * n], t[1 + rows * n:1 + rows * n + rows], t[1 + rows * n + rows:-1], t[-1]
-            if k['A'].shape != (rows, n) or [f2b(v) for v in k['A'].ravel()] != [f2b(v) for v in Cm]:
+            if k['A'].shape != (rows, n) or _bits(k['A'].ravel()) != _bits(Cm):
                 bad = 'matrix handed to scipy.optimize.nnls differs from the model\'s [W; alpha L]/vmax'
-            elif [f2b(v) for v in k['b']] != [f2b(v) for v in dm]:
+            elif _bits(k['b']) != _bits(dm):
                 bad = 'right-hand side handed to scipy.optimize.nnls differs from the model\'s [b; 0]/vmax'
             elif k['x'] is not k['xs'] and not np.array_equal(k['x'], k['xs']):
                 bad = 'returned x is not the solver\'s x'
@@ -755,25 +768,84 @@ def lsq_stream(ctx):
                 bad = 'keyword arguments not passed through: %r vs %r' % (k['kw'], k['kw_in'])
         elif which == 'lstsq':
             Cm, dm = t[:rows * n], t[rows * n:]
-            if k['A'].shape != (rows, n) or [f2b(v) for v in k['A'].ravel()] != [f2b(v) for v in Cm]:
+            if k['A'].shape != (rows, n) or _bits(k['A'].ravel()) != _bits(Cm):
                 bad = 'matrix handed to numpy.linalg.lstsq differs from the model\'s [W; alpha L]'
-            elif [f2b(v) for v in k['b']] != [f2b(v) for v in dm]:
+            elif _bits(k['b']) != _bits(dm):
                 bad = 'right-hand side handed to numpy.linalg.lstsq differs from the model\'s [b; 0]'
             elif not (np.array_equal(k['x'], k['r'][0]) and np.array_equal(k['resid'], k['r'][1])):
                 bad = 'returned (x, residuals) are not the solver\'s'
             elif k['kw'] != dict(rcond=None):
                 bad = 'lstsq keyword arguments %r' % (k['kw'],)
         else:
-            if not np.array_equal(k['A'], k['W']):
+            if not np.array_equal(np.asarray(k['A'], float), k['W']):
                 bad = 'matrix handed to scipy.linalg.pinv is not W'
-            elif not vec_close(k['x'], t, 1e-9):
+            elif not vec_close(k['x'], t, k.get('rel', 1e-9)):
                 bad = 'returned x %r is not pinv(W) b = %r' % (k['x'].tolist(), t)
         if bad:
             ctx.disagreements += 1
             ctx.broke('correspondence', name, dict(what=bad, input=desc))
 
 
-def _perturb_check(ctx, rng, fn, Wa, ba, alpha, Leff, x, obj, nonneg, desc):
+def lsq_stream(ctx):
+    from cherab.tools.inversions import invert_regularised_nnls, invert_regularised_lstsq, invert_svd
+    rng = ctx.rng
+    lines, checks = [], []
+    big = 8 if ctx.tier == 'quick' else 12
+    for it in range(ctx.n(700, 30000)):
+        m, n = rng.randint(1, big), rng.randint(1, big)
+        W, wk = gen_matrix(rng, m, n)
+        b, bk = gen_b(rng, W, m, n)
+        zclass = None
+        if it % 11 == 5:
+            zclass = rng.choice(['all-zero', 'all-negative', 'non-positive'])
+            b = {'all-zero': [0.0] * m, 'all-negative': [-rng.uniform(0.1, 2) for _ in range(m)],
+                 'non-positive': [rng.choice([0.0, -rng.uniform(0.1, 2)]) for _ in range(m)]}[zclass]
+            bk = zclass
+        alpha = rng.choice([0.01, 0.01, 0.0, 1.0, 0.1, rng.uniform(0, 2), 10.0 ** rng.randint(-4, 1)])
+        hasL = rng.random() < 0.6
+        if hasL:
+            if rng.random() < 0.5:
+                L, lk = gen_laplacian(rng, n)
+            else:
+                L, lk = [[rng.uniform(-1, 1) for _ in range(n)] for _ in range(n)], 'random'
+        else:
+            L, lk = None, 'identity(default)'
+        Wa = np.array(W).reshape(m, n); ba = np.array(b); La = None if L is None else np.array(L).reshape(n, n)
+        base = dict(W=W, b=b, alpha=alpha, tikhonov_matrix=L, matrix_class=wk, b_class=bk, tikhonov_class=lk)
+        which = rng.choice(['nnls', 'nnls', 'lstsq', 'lstsq', 'svd']) if zclass is None else 'nnls'
+        ctx.count('invert_' + which); ctx.count('lsq-matrix:' + wk); ctx.count('lsq-b:' + bk)
+        ctx.case(key=(which, wk, bk, lk, m, n, f2b(alpha)),
+                 sample=dict(func=which, shape=[m, n], alpha=alpha, tikhonov=lk, W=W, b=b) if it % 89 == 7 else None)
+        M = dict(W=W, b=b, alpha=alpha, L=L)
+        kw = {}
+        if which == 'nnls':
+            desc = dict(base, func='invert_regularised_nnls')
+            kw = dict(maxiter=50 * n) if rng.random() < 0.3 else {}
+            snaps = [snap(v) for v in (Wa, ba, La)]
+            st, res, calls = spied('nnls', invert_regularised_nnls, (Wa, ba, alpha, La), kw)
+        elif which == 'lstsq':
+            desc = dict(base, func='invert_regularised_lstsq')
+            snaps = [snap(v) for v in (Wa, ba, La)]
+            st, res, calls = spied('lstsq', invert_regularised_lstsq, (Wa, ba, alpha, La), {})
+        else:
+            desc = dict(func='invert_svd', W=W, b=b, matrix_class=wk, b_class=bk)
+            snaps = [snap(v) for v in (Wa, ba, La)]
+            st, res, calls = spied('svd', invert_svd, (Wa, ba), {})
+        for nm, v, s0 in zip(('w_matrix', 'b_vector', 'tikhonov_matrix'), (Wa, ba, La), snaps):
+            if snap(v) != s0:
+                ctx.fail('C11:%s:argument-%s-modified' % (desc['func'], nm), 'the caller\'s %s was modified by the call' % nm, desc)
+        lsq_judge(ctx, rng, which, M, st, res, calls, desc, lines, checks, kw, zclass)
+    lsq_compare(ctx, lines, checks)
+
+
+def snap(o):
+    """content snapshot of an argument (to detect in-place modification)"""
+    if isinstance(o, np.ndarray):
+        return ('nd', o.dtype.str, o.shape, o.tobytes(), bool(o.flags.writeable))
+    return ('py', repr(o))
+
+
+def _perturb_check(ctx, rng, fn, Wa, ba, alpha, Leff, x, obj, nonneg, desc, rel=1e-8):
     """S: the objective at the returned x is not larger than at perturbed feasible points"""
     n = len(x)
     sc = obj + float(ba @ ba) + 1e-300
@@ -783,10 +855,303 @@ def _perturb_check(ctx, rng, fn, Wa, ba, alpha, Leff, x, obj, nonneg, desc):
         if nonneg:
             y = np.maximum(y, 0.0)
         oy = float(np.sum((Wa @ y - ba) ** 2) + alpha ** 2 * np.sum((Leff @ y) ** 2))
-        if oy < obj - 1e-9 * sc:
+        if oy < obj - 0.1 * rel * sc:
             ctx.fail('C11:%s:not-a-minimiser' % fn, 'objective %r at the returned x but %r at a nearby feasible point' % (obj, oy),
                      dict(desc, returned_x=x.tolist(), better_point=y.tolist()))
             return
+
+
+# ------------------------------------------------------------------------------------------------- representations
+
+ARR_KINDS = ['f64', 'f32', 'i32', 'i64', 'bool', 'list', 'intlist', 'tuple', 'fortran', 'strided', 'readonly']
+GUESS_SCALARS = ['none', 'pyfloat', 'pyint', 'pybool', 'npf64', 'npf32', 'npi64', 'zerod']
+ALPHA_KINDS = ['pyfloat', 'pyint', 'npf64', 'npf32', 'zerod']
+PLAIN = ('f64', 'fortran', 'strided')
+CLEAN = ('TypeError', 'ValueError', 'AttributeError')
+
+
+def vclass(kind):
+    return {'f32': 'f32', 'i32': 'int', 'i64': 'int', 'intlist': 'int', 'bool': 'bool'}.get(kind, 'float')
+
+
+def rvalue(rng, cls, lo, hi, pzero=0.0):
+    """a python float that is exactly representable in the value class"""
+    if rng.random() < pzero:
+        return 0.0
+    if cls == 'int':
+        return float(rng.randint(int(math.ceil(lo)), int(hi)))
+    if cls == 'bool':
+        return float(rng.randint(0, 1))
+    v = rng.uniform(lo, hi)
+    return float(np.float32(v)) if cls == 'f32' else v
+
+
+def make_obj(vals, kind, nd):
+    """the Python object of representation `kind` holding exactly the mathematical values `vals`"""
+    a = np.array(vals, dtype=float)
+    if kind == 'f32':
+        return a.astype(np.float32)
+    if kind == 'i32':
+        return a.astype(np.int32)
+    if kind == 'i64':
+        return a.astype(np.int64)
+    if kind == 'bool':
+        return a.astype(bool)
+    if kind == 'list':
+        return a.tolist()
+    if kind == 'intlist':
+        return a.astype(int).tolist()
+    if kind == 'tuple':
+        return tuple(tuple(r) for r in a.tolist()) if nd == 2 else tuple(a.tolist())
+    if kind == 'fortran':
+        return np.asfortranarray(a)
+    if kind == 'strided':
+        if nd == 2:
+            z = np.full((a.shape[0] * 2 + 1, a.shape[1] * 3), 7.5)
+            v = z[1::2, ::3]
+        else:
+            z = np.full(a.shape[0] * 2, 7.5)
+            v = z[::2]
+        v[...] = a
+        return v
+    if kind == 'readonly':
+        a.setflags(write=False)
+        return a
+    if kind == 'col':
+        return a.reshape(-1, 1)
+    return a
+
+
+def make_scalar(v, kind):
+    return {'pyfloat': lambda: float(v), 'pyint': lambda: int(v), 'pybool': lambda: bool(v), 'npf64': lambda: np.float64(v),
+            'npf32': lambda: np.float32(v), 'npi64': lambda: np.int64(v), 'zerod': lambda: np.array(float(v))}[kind]()
+
+
+def gen_rep_case(rng, tier):
+    """one representation case as a JSON-able description (mathematical values + representation of every argument)"""
+    fn = rng.choice(['invert_sart', 'invert_constrained_sart', 'invert_regularised_nnls', 'invert_regularised_lstsq', 'invert_svd'])
+    m, n = rng.randint(1, 6), rng.randint(1, 6)
+    sart = fn in ('invert_sart', 'invert_constrained_sart')
+    names = ['W', 'b'] + (['guess'] if sart else []) + (['L'] if fn in ('invert_constrained_sart', 'invert_regularised_nnls', 'invert_regularised_lstsq') else []) \
+        + (['alpha'] if fn in ('invert_regularised_nnls', 'invert_regularised_lstsq') else [])
+    reps = dict(W='f64', b='f64', guess='none' if rng.random() < 0.5 else 'f64', L='f64', alpha='pyfloat')
+    varied = names if rng.random() < 0.35 else [rng.choice(names)]
+    for a in varied:
+        if a == 'guess':
+            reps[a] = rng.choice(GUESS_SCALARS + ARR_KINDS + ['col'])
+        elif a == 'alpha':
+            reps[a] = rng.choice(ALPHA_KINDS)
+        elif a == 'b':
+            reps[a] = rng.choice(ARR_KINDS + ['col'])
+        else:
+            reps[a] = rng.choice(ARR_KINDS)
+    if 'L' in names and not sart and rng.random() < 0.3:
+        reps['L'] = '-'                                       # default identity
+    cW, cb = vclass(reps['W']), vclass(reps['b'])
+    W = [[rvalue(rng, cW, 0.05, 3.0, 0.3) if cW in ('float', 'f32') else rvalue(rng, cW, 0, 3) for _ in range(n)] for _ in range(m)]
+    if rng.random() < 0.2:
+        W[rng.randrange(m)] = [0.0] * n
+    if cb in ('float', 'f32'):
+        xt = [rng.uniform(0, 3) for _ in range(n)]
+        b = [math.fsum(w * x for w, x in zip(r, xt)) * (1 + rng.uniform(-0.1, 0.1)) + rng.uniform(0, 0.05) for r in W]
+        if cb == 'f32':
+            b = [float(np.float32(v)) for v in b]
+    else:
+        b = [rvalue(rng, cb, 0, 8) for _ in range(m)]
+    if not any(b):
+        b[rng.randrange(m)] = 1.0
+    d = dict(func=fn, W=W, b=b, reprs={k: reps[k] for k in names}, representation_case=True)
+    if 'L' in names:
+        if reps['L'] == '-':
+            L = None
+        else:
+            cL = vclass(reps['L'])
+            if cL == 'int':
+                L, _ = gen_laplacian(rng, n, integer=True)
+            elif cL == 'bool':
+                L = [[rvalue(rng, 'bool', 0, 1) for _ in range(n)] for _ in range(n)]
+            else:
+                L = [[rvalue(rng, cL, -1, 1) for _ in range(n)] for _ in range(n)] if rng.random() < 0.5 else gen_laplacian(rng, n)[0]
+                if cL == 'f32':
+                    L = [[float(np.float32(v)) for v in r] for r in L]
+        d['L'] = L
+    if sart:
+        g = reps['guess']
+        if g == 'none':
+            d['guess'] = None
+        elif g in GUESS_SCALARS:
+            d['guess'] = {'pyfloat': rng.uniform(0, 3), 'npf64': rng.uniform(0, 3), 'zerod': rng.uniform(0, 3), 'pyint': float(rng.randint(0, 3)),
+                          'npi64': float(rng.randint(0, 3)), 'pybool': float(rng.randint(0, 1)), 'npf32': float(np.float32(rng.uniform(0, 3)))}[g]
+        else:
+            d['guess'] = [rvalue(rng, vclass(g), 0, 3) for _ in range(n)]
+        d.update(max_iterations=rng.choice([1, 2, 3, 5, 10]), relaxation=rng.choice([1.0, 0.5, 0.8]), conv_tol=rng.choice([1e-4, -1.0, 1e-2]),
+                 beta=rng.choice([0.0, 0.01, 0.05]) if fn == 'invert_constrained_sart' else None)
+    if 'alpha' in names:
+        a = reps['alpha']
+        dyadic = a == 'npf32' or reps['L'] == 'f32'
+        if a == 'pyint':
+            d['alpha'] = float(rng.randint(0, 2))
+        elif dyadic and rng.random() < 0.8:
+            d['alpha'] = rng.choice([0.0, 0.125, 0.25, 0.5, 1.0, 2.0])
+        else:
+            d['alpha'] = rng.choice([0.01, 0.1, 1.0, rng.uniform(0, 2)])
+            if a == 'npf32':
+                d['alpha'] = float(np.float32(d['alpha']))
+        d['alpha_dyadic'] = d['alpha'] in (0.0, 0.125, 0.25, 0.5, 1.0, 2.0)
+    return d
+
+
+def rep_objects(d):
+    """fresh argument objects for a representation case"""
+    r = d['reprs']
+    o = dict(W=make_obj(d['W'], r['W'], 2), b=make_obj(d['b'], r['b'], 1))
+    if 'L' in r:
+        o['L'] = None if r['L'] == '-' else make_obj(d['L'], r['L'], 2)
+    if 'guess' in r:
+        g = r['guess']
+        o['guess'] = None if g == 'none' else make_scalar(d['guess'], g) if g in GUESS_SCALARS else make_obj(d['guess'], g, 1)
+    if 'alpha' in r:
+        o['alpha'] = make_scalar(d['alpha'], r['alpha'])
+    return o
+
+
+def rep_call(d, o):
+    import cherab.tools.inversions as inv
+    fn = d['func']
+    if fn == 'invert_sart':
+        with np.errstate(all='ignore'):
+            st, res = call(inv.invert_sart, o['W'], o['b'], initial_guess=o['guess'], max_iterations=d['max_iterations'], relaxation=d['relaxation'],
+                           conv_tol=d['conv_tol'])
+        return st, res, []
+    if fn == 'invert_constrained_sart':
+        with np.errstate(all='ignore'):
+            st, res = call(inv.invert_constrained_sart, o['W'], o['L'], o['b'], initial_guess=o['guess'], max_iterations=d['max_iterations'],
+                           relaxation=d['relaxation'], beta_laplace=d['beta'], conv_tol=d['conv_tol'])
+        return st, res, []
+    if fn == 'invert_regularised_nnls':
+        return spied('nnls', inv.invert_regularised_nnls, (o['W'], o['b'], o['alpha'], o['L']), {})
+    if fn == 'invert_regularised_lstsq':
+        return spied('lstsq', inv.invert_regularised_lstsq, (o['W'], o['b'], o['alpha'], o['L']), {})
+    return spied('svd', inv.invert_svd, (o['W'], o['b']), {})
+
+
+def _same_result(a, b):
+    if isinstance(a, (tuple, list)) and isinstance(b, (tuple, list)):
+        return len(a) == len(b) and all(_same_result(x, y) for x, y in zip(a, b))
+    try:
+        return bool(np.array_equal(np.asarray(a, float), np.asarray(b, float), equal_nan=True))
+    except Exception:
+        return repr(a) == repr(b)
+
+
+def rep_case_run(ctx, rng, d, pending):
+    """execute one representation case: standing oracles (arguments untouched, repeatable), S oracles from the mathematical
+    values; queues the model lines (acceptance + values) in `pending`"""
+    fn = d['func']
+    r = d['reprs']
+    sart = fn in ('invert_sart', 'invert_constrained_sart')
+    o = rep_objects(d)
+    snaps = {k: snap(v) for k, v in o.items()}
+    st, res, calls = rep_call(d, o)
+    res1 = res if st != 'ok' else (tuple(np.array(v, copy=True) if isinstance(v, np.ndarray) else (list(v) if isinstance(v, list) else v) for v in res)
+                                   if isinstance(res, tuple) else np.array(res, copy=True))
+    ctx.count('repr:%s:%s' % (fn, st))
+    for k, v in r.items():
+        if v not in ('f64', 'pyfloat', 'none'):
+            ctx.count('repr-arg:%s=%s' % (k, v))
+    # standing oracle 1: the caller's objects are untouched (SART's array initial_guess is the one as-is exception: it is the
+    # returned solution, documented as outside the property)
+    for k, v in o.items():
+        if snap(v) != snaps[k]:
+            if sart and k == 'guess':
+                ctx.count('observation:initial_guess-array-overwritten-and-returned(outside property)')
+                continue
+            pn = (dict(W='geometry_matrix', b='measurement_vector', L='laplacian_matrix', guess='initial_guess') if sart else
+                  dict(W='w_matrix', b='b_vector', L='tikhonov_matrix', alpha='alpha'))[k]
+            ctx.fail('C11:%s:argument-%s-modified' % (fn, pn), 'the caller\'s %s (%s) was modified by the call' % (pn, r[k]), d)
+    # standing oracle 2: an identical second call on the same objects gives the identical result
+    if sart and isinstance(o.get('guess'), np.ndarray):
+        o['guess'] = rep_objects(d)['guess']
+    st2, res2, _ = rep_call(d, o)
+    if st2 != st or (st == 'ok' and not _same_result(res1, res2)):
+        ctx.fail('C11:%s:repeated-call-differs' % fn, 'two identical calls on the same argument objects: first %s %r, second %s %r' % (st, res1 if st == 'ok' else res, st2, res2), d)
+    # acceptance: model line
+    if sart:
+        acc = 'acc sart %s %s %s' % (r['W'], r['b'], r['guess'])
+        plain = r['W'] in PLAIN and r['b'] in PLAIN and r['guess'] in ('none', 'pyfloat', 'pyint', 'pybool', 'npf64') + PLAIN
+    elif fn == 'invert_svd':
+        acc = 'acc svd %s %s' % (r['W'], r['b'])
+        plain = r['W'] in PLAIN and r['b'] in PLAIN
+    else:
+        acc = 'acc lsq %d %s %s %s %s' % (len(d['W']), r['W'], r['alpha'], r['L'], r['b'])
+        plain = r['W'] in PLAIN and r['b'] in PLAIN and r['L'] in PLAIN + ('-',) and r['alpha'] == 'pyfloat'
+    pending.append(('acc', acc, st, d))
+    if st != 'ok':
+        # S: a representation may be refused, but cleanly (TypeError / ValueError / AttributeError); writable float64 ndarrays must work
+        if plain or st not in CLEAN:
+            ctx.fail('C11:%s:raised-%s' % (fn, st), '%s raised %s: %s for representations %r' % (fn, st, res, r), d)
+        return
+    f32 = any(v in ('f32', 'npf32') for v in r.values())
+    if sart:
+        g = d['guess']
+        n = len(d['W'][0])
+        x0 = np.zeros(n) + (float(np.exp(-1)) if g is None else g) if not isinstance(g, list) else np.array(g, float)
+        gtok = ('0 ' + f2b(float(np.exp(-1)))) if g is None else ('1 ' + f2b(g)) if not isinstance(g, list) else '2 %d %s' % (n, fs(g))
+        m = len(d['W'])
+        if fn == 'invert_constrained_sart':
+            line = 'csart %d %d %d %s %s %s %s %s %s %s' % (n, m, d['max_iterations'], f2b(d['relaxation']), f2b(d['conv_tol']), f2b(d['beta']), gtok,
+                                                           fs(flat(d['W'])), fs(d['b']), fs(flat(d['L'])))
+        else:
+            line = 'sart %d %d %d %s %s %s %s %s' % (n, m, d['max_iterations'], f2b(d['relaxation']), f2b(d['conv_tol']), gtok, fs(flat(d['W'])), fs(d['b']))
+        c = dict(line=line, st=st, res=res1, desc=dict(d, x0=[float(v) for v in x0]), n=n, x0=x0, W=d['W'], b=d['b'],
+                 L=d.get('L') if fn == 'invert_constrained_sart' else None, beta=d.get('beta') or 0.0, relax=d['relaxation'], tol=d['conv_tol'], maxit=d['max_iterations'])
+        pending.append(('sart', line, c, d))
+    else:
+        which = {'invert_regularised_nnls': 'nnls', 'invert_regularised_lstsq': 'lstsq', 'invert_svd': 'svd'}[fn]
+        M = dict(W=d['W'], b=d['b'], alpha=d.get('alpha', 0.0), L=d.get('L'))
+        exact = not f32 or (which != 'svd' and d.get('alpha_dyadic'))
+        if which == 'svd':
+            exact = True
+            # scipy.linalg.pinv works in single precision for float32 *and bool* input (as-is; svd is not in the property sentence)
+            rel = 2e-4 if (f32 or r['W'] == 'bool') else 1e-8
+        else:
+            rel = 1e-8 if exact else 1e-5
+        if not exact:
+            ctx.count('repr:single-precision alpha*L (K skipped, S at 1e-5)')
+        desc = dict(d, tikhonov_matrix=d.get('L'))
+        lines, checks = [], []
+        lsq_judge(ctx, rng, which, M, st, res, calls, desc, lines, checks, {}, None, rel, exact)
+        for l, ch in zip(lines, checks):
+            pending.append(('lsq', l, ch, d))
+
+
+def repr_stream(ctx):
+    """input-representation variety for all five entry points"""
+    rng = ctx.rng
+    pending = []
+    for it in range(ctx.n(900, 20000)):
+        d = gen_rep_case(rng, ctx.tier)
+        ctx.case(key=('repr', d['func'], json.dumps(d['reprs'], sort_keys=True), len(d['W']), len(d['W'][0])),
+                 sample=dict(func=d['func'], reprs=d['reprs'], W=d['W'], b=d['b']) if it % 211 == 5 else None)
+        rep_case_run(ctx, rng, d, pending)
+    rep_flush(ctx, pending)
+
+
+def rep_flush(ctx, pending):
+    outs = ctx.driver([p[1] for p in pending])
+    lsq_lines, lsq_checks = [], []
+    for (kind, line, x, d), o in zip(pending, outs):
+        if kind == 'acc':
+            ctx.traces += 1
+            if o != x:
+                ctx.disagreements += 1
+                ctx.broke('correspondence', 'C11 stream representations (acceptance)', dict(line=line, model=o, implementation=x, input=d))
+        elif kind == 'sart':
+            sart_compare(ctx, x, o)
+        else:
+            lsq_lines.append(line); lsq_checks.append(x)
+    if lsq_lines:
+        lsq_compare(ctx, lsq_lines, lsq_checks)
 
 
 # ------------------------------------------------------------------------------------------------- certificate functions
@@ -826,13 +1191,15 @@ def run(ctx):
                 'measurements (consistent, noisy, random, partly negative, scaled; for nnls also all-zero / all-negative / non-positive), every kind of '
                 'initial_guess (None, float, int, bool, np.float64, array, strided view, negative, zeros), relaxation, conv_tol (incl. 0 and negative), '
                 'max_iterations 0..250, beta_laplace and Laplacians (chain, ring, grid, random, zero), alpha and Tikhonov matrices (default identity, Laplacian, '
-                'random); a case is distinct by (function, matrix class, measurement class, guess/Tikhonov kind, shape, scalar parameters); non-trivial = '
+                'random); a representation stream passes W, b, L, initial_guess, alpha as float64/float32/int32/int64/bool arrays, nested lists/tuples, Fortran / strided / '
+                'read-only arrays, column vectors, Python and numpy scalars, 0-d arrays, with values exactly representable in the chosen type; a case is distinct by (function, matrix class, measurement class, guess/Tikhonov kind, shape, scalar parameters); non-trivial = '
                 'the real function was executed and its result compared with the model and checked by the direct oracle')
     ctx.trusted += ['scipy.optimize.nnls, numpy.linalg.lstsq, scipy.linalg.pinv are parameters of the model; the wrapper theorems assume the returned point satisfies '
                     'the KKT / normal-equation certificate of the system handed to the solver — checked on every returned x by the S oracles',
                     'numpy sum/dot (pairwise / BLAS summation order differs from the model\'s left-to-right order: compared with rel 1e-9; bit-for-bit on the dyadic stream)',
                     'np.exp(-1) (default initial guess) compared with libm exp(-1) every run']
-    ctx.assumptions += ['compatible shapes, float64 arrays, finite entries, non-negative weights; SART: measurement vector not identically zero (the documented '
+    ctx.assumptions += ['compatible shapes, finite entries, non-negative weights; a representation the code refuses with TypeError/ValueError/AttributeError is a clean rejection '
+                        '(must agree with the acceptance model of Model/Inversion.lean), writable float64 ndarrays must be accepted; SART: measurement vector not identically zero (the documented '
                         'convergence measure divides by |b|^2; as-is the code raises ZeroDivisionError — recorded as an observation, model agrees)',
                         'mutation of a caller-supplied initial_guess array (it is overwritten and returned) is outside the property text; recorded in the histogram',
                         'stop decisions within 1e-9 of conv_tol are skipped in the random stream (counted) and hit exactly in the dyadic stream',
@@ -847,6 +1214,7 @@ def run(ctx):
     exact_stream(ctx)
     fixed_point_stream(ctx)
     lsq_stream(ctx)
+    repr_stream(ctx)
     certificate_stream(ctx)
 
 
@@ -861,6 +1229,16 @@ def _replay_case(ctx, r, from_corpus=False):
     """re-execute one stored failing input against the real code with the direct oracle"""
     import cherab.tools.inversions as inv
     fn = r.get('func')
+    if r.get('representation_case'):
+        d = {k: v for k, v in r.items() if k not in ('returned_x', 'reported_norm', 'returned_solution', 'returned_convergence', 'gradient', 'better_point', 'x0', 'tikhonov_matrix')}
+        pending = []
+        nf = len(ctx.failing) + len(ctx.known_hits)
+        ctx.case(key=('replay-repr', fn, json.dumps(d['reprs'], sort_keys=True)))
+        rep_case_run(ctx, ctx.rng, d, pending)
+        rep_flush(ctx, pending)
+        if not from_corpus and nf == len(ctx.failing) + len(ctx.known_hits):
+            ctx.log('replay: the property holds on this input now')
+        return
     if fn == 'invert_regularised_nnls':
         import scipy.optimize
         W = np.array(r['W'], float); b = np.array(r['b'], float)
@@ -898,7 +1276,7 @@ def _replay_case(ctx, r, from_corpus=False):
 def replay(ctx, path):
     r = json.load(open(path))
     print(json.dumps(r, indent=1, default=str)[:3000])
-    if r.get('kind') == 'failing-input' and r.get('replay', {}).get('func') in ('invert_regularised_nnls', 'invert_sart', 'invert_constrained_sart'):
+    if r.get('kind') == 'failing-input' and (r.get('replay', {}).get('representation_case') or r.get('replay', {}).get('func') in ('invert_regularised_nnls', 'invert_sart', 'invert_constrained_sart')):
         _replay_case(ctx, r['replay'])
         ctx.rule = 'replay of one stored failing input against the real code with the direct oracle'
         return ctx.finish()
